@@ -5,6 +5,7 @@ import json, os, subprocess, sys, shutil
 
 PROPS = ['C01', 'C02', 'C03', 'C04', 'C05', 'C06', 'C07', 'C08', 'C09', 'C10', 'C11', 'C12', 'C13', 'C14', 'C15', 'C16', 'C17', 'C18', 'C19', 'C20']
 V = os.path.dirname(os.path.dirname(os.path.abspath(__file__)))
+ROOT = os.environ.get('EVAL_ROOT', '/repo')  # a scratch worktree of /repo may be used instead of /repo itself
 
 
 def sh(cmd, **kw):
@@ -16,14 +17,14 @@ def demo(path):
         return 'skipped'
     if not os.path.isfile(path):
         return None
-    r = sh(f'cd /repo && PYTHONPATH=/repo timeout 900 /venv/bin/python {path}')
+    r = sh(f'cd {ROOT} && PYTHONPATH={ROOT} timeout 900 /venv/bin/python {path}')
     return r.returncode
 
 
 def main():
     src = sys.argv[1]
     only = sys.argv[2:] 
-    assert sh('git -C /repo status --porcelain').stdout.strip() == '', '/repo not clean'
+    assert sh(f'git -C {ROOT} status --porcelain').stdout.strip() == '', '/repo not clean'
     rows = []
     for sid in sorted(os.listdir(src)):
         d = os.path.join(src, sid)
@@ -31,7 +32,7 @@ def main():
         if not os.path.isfile(patch) or (only and sid not in only):
             continue
         clean_rc = demo(os.path.join(d, 'demo.py'))
-        ap = sh(f'git -C /repo apply {patch}')
+        ap = sh(f'git -C {ROOT} apply {patch}')
         if ap.returncode != 0:
             rows.append((sid, 'PATCH DOES NOT APPLY', ap.stderr[:200]))
             continue
@@ -39,13 +40,13 @@ def main():
             changed_rc = demo(os.path.join(d, 'demo.py'))
             fired = {}
             for p in PROPS:
-                r = sh(f'cd {V} && ./check {p} --no-evidence')
+                r = sh(f'cd {V} && ./check {p} --no-evidence --root {ROOT}')
                 if r.returncode == 1:
                     fired[p] = [l.strip() for l in r.stdout.splitlines() if l.strip().startswith('construct:')][:3]
                 elif r.returncode == 2:
                     fired[p] = ['ANALYSIS-ERROR: ' + ' '.join(l for l in r.stdout.splitlines() if 'ANALYSIS-ERROR' in l)[:200]]
         finally:
-            sh('git -C /repo checkout -- .')
+            sh(f'git -C {ROOT} checkout -- .')
         rows.append((sid, f'demo clean={clean_rc} changed={changed_rc}', fired))
     for sid, demo_s, fired in rows:
         print(f'## {sid}: {demo_s}')
@@ -56,7 +57,7 @@ def main():
                 print(f'     {p}: {c[:2]}')
         else:
             print('    ', fired)
-    assert sh('git -C /repo status --porcelain').stdout.strip() == '', '/repo not clean after evaluation'
+    assert sh(f'git -C {ROOT} status --porcelain').stdout.strip() == '', '/repo not clean after evaluation'
 
 
 main()
